@@ -13,6 +13,10 @@ var (
 	FaultFn func(point string, args []string) error
 	EventFn func(kind string, args []string)
 	OrderFn func(point string, names []string) []string
+	// AcquireFn/ReleaseFn track locks held by the calling goroutine so that a
+	// simulator never parks a goroutine that holds one.
+	AcquireFn func()
+	ReleaseFn func(site string)
 )
 
 // Yield marks a point at which a simulator may park the calling goroutine.
@@ -43,4 +47,19 @@ func Order(point string, names []string) []string {
 		return f(point, names)
 	}
 	return nil
+}
+
+// Acquire and Release bracket a lock held by the calling goroutine. They are
+// only called from code instrumented by the simulation harness.
+func Acquire() {
+	if f := AcquireFn; f != nil {
+		f()
+	}
+}
+
+// Release is the counterpart of Acquire.
+func Release(site string) {
+	if f := ReleaseFn; f != nil {
+		f(site)
+	}
 }
